@@ -27,7 +27,7 @@ Lemma store_ext : forall a b, (forall k, get k a = get k b) -> a = b.
 Proof.
   intros a b H. destruct a, b.
   pose proof (H KBounds). pose proof (H KObjective). pose proof (H KDirection). pose proof (H KConsVars).
-  pose proof (H KGenes). pose proof (H KContent). pose proof (H KSolver). cbn in *. congruence.
+  pose proof (H KConsAttr). pose proof (H KGenes). pose proof (H KContent). pose proof (H KSolver). cbn in *. congruence.
 Qed.
 
 Lemma all_kinds_complete : forall k, In k all_kinds.
@@ -208,22 +208,46 @@ Proof.
     apply andb_true_intro. split; [reflexivity|]. apply kind_eqb_eq. reflexivity.
 Qed.
 
+Lemma norm_k_eq : forall s k, norm_k s k = s k.
+Proof. intros s k. destruct k; reflexivity. Qed.
+
+Lemma norm_lv_eq : forall lv i k,
+  fst (norm_lv lv i) k = fst (lv i) k /\ snd (norm_lv lv i) k = snd (lv i) k.
+Proof.
+  intros lv i k. unfold norm_lv. rewrite nth_error_map.
+  destruct (nth_error (seq 0 8) i) as [j|] eqn:E; cbn [option_map].
+  - assert (Hj : j = i).
+    { assert (Hlt : i < length (seq 0 8)) by (apply nth_error_Some; congruence). rewrite seq_length in Hlt.
+      apply (nth_error_nth _ _ 0) in E. rewrite seq_nth in E by exact Hlt. cbn in E. congruence. }
+    subst j. cbn. rewrite !norm_k_eq. split; reflexivity.
+  - split; reflexivity.
+Qed.
+
+Lemma join_dirty : forall a b k, a_dirty (join a b) k = a_dirty a k || a_dirty b k.
+Proof. intros a b k. unfold join. cbn [a_dirty]. apply norm_k_eq. Qed.
+Lemma join_must : forall a b i k, fst (a_lv (join a b) i) k = fst (a_lv a i) k && fst (a_lv b i) k.
+Proof. intros a b i k. unfold join. cbn [a_lv]. rewrite (proj1 (norm_lv_eq _ i k)). reflexivity. Qed.
+Lemma join_may : forall a b i k, snd (a_lv (join a b) i) k = snd (a_lv a i) k || snd (a_lv b i) k.
+Proof. intros a b i k. unfold join. cbn [a_lv]. rewrite (proj2 (norm_lv_eq _ i k)). reflexivity. Qed.
+Lemma join_sv : forall a b, a_sv (join a b) = filter (fun p => sv_mem p (a_sv b)) (a_sv a).
+Proof. reflexivity. Qed.
+
 Lemma leq_join_l : forall d a b, leq d a (join a b).
 Proof.
-  intros d a b. unfold join. repeat split; cbn; intros.
-  - rewrite H. reflexivity.
-  - apply andb_prop in H0. tauto.
-  - rewrite H0. reflexivity.
-  - apply filter_In in H. tauto.
+  intros d a b. repeat split; intros.
+  - rewrite join_dirty, H. reflexivity.
+  - rewrite join_must in H0. apply andb_prop in H0. tauto.
+  - rewrite join_may, H0. reflexivity.
+  - rewrite join_sv in H. apply filter_In in H. tauto.
 Qed.
 
 Lemma leq_join_r : forall d a b, leq d b (join a b).
 Proof.
-  intros d a b. unfold join. repeat split; cbn; intros.
-  - rewrite H. apply orb_true_r.
-  - apply andb_prop in H0. tauto.
-  - rewrite H0. apply orb_true_r.
-  - apply filter_In in H. destruct H as [_ H]. apply sv_mem_in. exact H.
+  intros d a b. repeat split; intros.
+  - rewrite join_dirty, H. apply orb_true_r.
+  - rewrite join_must in H0. apply andb_prop in H0. tauto.
+  - rewrite join_may, H0. apply orb_true_r.
+  - rewrite join_sv in H. apply filter_In in H. destruct H as [_ H]. apply sv_mem_in. exact H.
 Qed.
 
 Lemma forallb_kinds : forall f, forallb f all_kinds = true -> forall k, f k = true.
@@ -632,6 +656,14 @@ Proof.
   - (* OnCopy *)
     inversion Hf; subst x; clear Hf. destruct (exec o k s) as [s1 r]. cbn [fst snd].
     exists a0. split; [destruct r; reflexivity|]. apply R_hist. exact HR.
+  - (* Scope *)
+    destruct (flow k d a0) as [xp|] eqn:Ep; [|discriminate]. inversion Hf; subst x; clear Hf.
+    destruct (IHk d a0 xp Ep s HR) as [a1 [Hs1 HR1]]. destruct (exec o k s) as [s1 r]. cbn [fst snd] in *.
+    destruct r; cbn [sel] in *; try (exists a1; split; assumption).
+    + rewrite Hs1. destruct (ojoin_l d a1 (x_ret xp)) as [b [Hb Lb]]. exists b.
+      split; [exact Hb|eapply R_mono; eassumption].
+    + rewrite Hs1. destruct (ojoin_r d a1 (x_n xp)) as [b [Hb Lb]]. exists b.
+      split; [exact Hb|eapply R_mono; eassumption].
 Qed.
 
 End Restore.
@@ -674,4 +706,24 @@ Theorem repeat_same :
 Proof.
   intros k Hok o s s1. pose proof (sk_ok_restores k Hok o s) as H. unfold observable in H.
   inversion H as [[Hr Hc]]. fold s1 in Hr, Hc. rewrite Hr, Hc. destruct s; reflexivity.
+Qed.
+
+(* the diagnostic report is empty exactly when the static check accepts *)
+Lemma filter_nil_forallb : forall (A : Type) (f : A -> bool) l, filter f l = [] -> forallb (fun x => negb (f x)) l = true.
+Proof.
+  intros A f l. induction l as [|x t IH]; cbn; intros H; [reflexivity|].
+  destruct (f x); [discriminate|]. cbn. apply IH. exact H.
+Qed.
+
+Lemma sk_report_nil : forall k, sk_report k = [] -> sk_ok k = true.
+Proof.
+  intros k H. unfold sk_report, sk_ok in *. destruct (flow k 0 a0) as [x|]; [|discriminate].
+  assert (Hc : forall e, (match e with None => [] | Some a => filter (a_dirty a) all_kinds end) = [] -> clean e = true).
+  { intros [a|] He; [|reflexivity]. unfold clean. apply filter_nil_forallb. exact He. }
+  cbn [filter snd negb] in H.
+  repeat match type of H with
+  | context [match ?l with [] => true | _ :: _ => false end] =>
+      let E := fresh "E" in destruct l eqn:E; cbn [negb] in H; [|discriminate]
+  end.
+  rewrite !Hc by assumption. reflexivity.
 Qed.
